@@ -225,7 +225,8 @@ P["C09"] = dict(
     claimed=True,
     technique="static analysis: key-availability dataflow between constructors and parameter-table readers, "
               "validation-before-unwrap, ranking functions for all loops, recursion guard, ellipsoid table grammar",
-    decides=["R-UNSIGNED-SUB: no constant is subtracted from a natural-number parameter without a dominating test that the parameter is at least that large",
+    decides=["R-USER-I64-ARITH: every plain + / - on the i64 roll arguments in the stack interpreter is overflow-free by the known signs of its operands, or uses saturating / wrapping arithmetic",
+             "R-UNSIGNED-SUB: no constant is subtracted from a natural-number parameter without a dominating test that the parameter is at least that large",
              "R-INDEX-VALIDATION (roll/unroll): a negative n below -m cannot reach stack_roll (m + n would wrap to a huge number of rotations)",
              "R-GRIDS-INDEX-GUARD: grids[k] in an operator function is read behind a non-emptiness test of that grid list",
              "R-GUARD-MATCH-AGREE: adapt's designator guard and designator match agree on the value tested and on the alphabet (the `cannot happen` arm yielding axis 0 is unreachable)",
@@ -253,7 +254,8 @@ P["C09"] = dict(
 P["C12"] = dict(
     claimed=True,
     technique="static analysis: key-availability and dispatch-exhaustiveness between stack::new and stack_fwd/stack_inv",
-    decides=["R-FLIP-SEQUENTIAL: each exchange of a flip reads the working tuple as the earlier exchanges left it",
+    decides=["R-USER-I64-ARITH: roll / unroll argument arithmetic cannot overflow (an out-of-range roll ends as `roll too deep`: NaN and zero successes)",
+             "R-FLIP-SEQUENTIAL: each exchange of a flip reads the working tuple as the earlier exchanges left it",
              "R-STOMP-ALL: CoordinateSet::stomp overwrites whole tuples (set_coord with Coor4D::nan() for every index)",
              "R-INDEX-VALIDATION (roll/unroll): stack::new bounds |n| by m (a comparison with abs) and tests m and n for integrality",
              "R-KEY-AVAIL on the stack sub-commands: each arm reads the series its own sub-command stored",
